@@ -100,7 +100,9 @@ func e6(depth int) {
 		var w *lcWorld
 		var hist []string
 		var rec func()
-		run := func(h []string) {
+		stalled := 0 // consecutive executions of one history in which a request went nowhere within the horizon
+		var run func(h []string)
+		run = func(h []string) {
 			if w == nil {
 				if w = bootLC(engine, wc.base); w == nil {
 					return
@@ -153,8 +155,13 @@ func e6(depth int) {
 				res.Add("evaluations", 1)
 				res.Add("transitions", 1)
 				if !ok || len(first) == 0 {
-					res.Violate("request-not-dispatched", map[string]any{"part": "E6", "strategy": "least-connections"}, fmt.Sprintf("%s: step %d: no attempt arrived at any backend within 15 s", name, step+1),
-						map[string]any{"engine": "ops-stack", "world": engine, "history": append([]string{}, h[:step+1]...)})
+					// a horizon, not an oracle: on a loaded machine a request can take longer than any fixed wait. The history
+					// is executed again on a fresh instance; only what happens three times in a row is reported
+					stalled++
+					if stalled >= 3 {
+						res.Violate("request-not-dispatched", map[string]any{"part": "E6", "strategy": "least-connections"}, fmt.Sprintf("%s: step %d: no attempt arrived at any backend within 15 s (answered=%v), in three executions in a row\n%s", name, step+1, ok, dbg),
+							map[string]any{"engine": "ops-stack", "world": engine, "history": append([]string{}, h[:step+1]...)})
+					}
 					bad = true
 					return
 				}
@@ -216,7 +223,13 @@ func e6(depth int) {
 			if bad {
 				w.close()
 				w = nil
+				if stalled > 0 && stalled < 3 {
+					res.Note("E6: history [%s] stalled (%d), executed again", strings.Join(h, " "), stalled)
+					run(h)
+					return
+				}
 			}
+			stalled = 0
 		}
 		rec = func() {
 			if only := os.Getenv("VERIF_E6_ONLY"); only != "" {
